@@ -273,7 +273,8 @@ def emitOut (w : World) (wOld : World) (o : Out) (idx : Nat) (line : String) : L
     | some (cached, ob) => ["ss cached=" ++ (if cached then "1" else "0") ++ " " ++ renderObj ob]
     | none => []
   let cks := o.cookies.map (renderCookie wOld.ck o.t)
-  let rng := match o.rng with | none => [] | some n => ["rng " ++ toString n]
+  let rng := (match o.rng with | none => [] | some n => ["rng " ++ toString n]) ++
+    (if o.faulted > 0 then ["faulted " ++ toString o.faulted] else [])
   let fr := match o.frozen with
     | none => []
     | some (some k) => ["crashinside " ++ toString k]
